@@ -242,7 +242,7 @@ def run(ctx, res):
             res.fail("R-RESTART", inst, "R-RESTART|%s|%s" % (f_start.name, field), f_start.loc(),
                      "%s can create the streamer thread without resetting %s: ids continue from the previous run" % (f_start.name, field),
                      {"path_blocks": w})
-    res.require_min("L-PAIR", 15)
+    res.require_min("L-PAIR", 10)
     res.require_min("L-CV", 8)
     res.require_min("L-RECHECK", 2)
     res.require_min("R-STOP-WAKES", 3)
